@@ -115,7 +115,7 @@ fn c14_generate(prop: &str, seed: u64, idx: u64, tier: Tier) -> Plan {
 /// `hostile_tcp::budget` to `hostile_tcp` (hostile bytes on ICE-TCP streams; its first 120 indices enumerate shape x
 /// phase x end x listener kind), then `hostile_turn::budget` to `hostile_turn` (a hostile TURN server over UDP / TCP; its
 /// first 96 indices enumerate shape x stage x transport) and the last `hostile_udptl::budget` to `hostile_udptl`
-/// (hostile datagrams at a UDPTL endpoint; its first 20 indices enumerate shape x source).
+/// (hostile datagrams at a UDPTL endpoint; its first 22 indices enumerate shape x source).
 fn c07_generate(prop: &str, seed: u64, idx: u64, tier: Tier) -> Plan {
     let (a, b, c, d) = (hostile::budget(prop, tier), hostile_tcp::budget(prop, tier), hostile_turn::budget(prop, tier), hostile_udptl::budget(prop, tier));
     let (block, off) = (idx / (a + b + c + d), idx % (a + b + c + d));
